@@ -1,0 +1,42 @@
+// Copyright 2020-2025 Buf Technologies, Inc.
+//
+// Licensed under the Apache License, Version 2.0 (the "License");
+// you may not use this file except in compliance with the License.
+// You may obtain a copy of the License at
+//
+//      http://www.apache.org/licenses/LICENSE-2.0
+//
+// Unless required by applicable law or agreed to in writing, software
+// distributed under the License is distributed on an "AS IS" BASIS,
+// WITHOUT WARRANTIES OR CONDITIONS OF ANY KIND, either express or implied.
+// See the License for the specific language governing permissions and
+// limitations under the License.
+
+//go:build verif
+
+package build
+
+// Contracts for the gocv verifier (see /verif/DESIGN.md), author ca-W. Comment-only.
+// Ghost variables w_getImage* / w_put*: /verif/specs/ghost.spec; trusted sink Controller.PutImage: C19_C20_extra.spec.
+//
+// C20 for `buf build`: status 0 (nil) only if the image was built without any error AND written to the requested output
+// without error; if building fails - in particular with the ErrFileAnnotation (status 100) that the controller returns
+// after printing the compile annotations (bufctl.handleFileAnnotationSetRetError, verified) or with an import-not-found
+// error (turned into status 100 by wrapError) - that very error is returned and nothing is written.
+// Controller.GetImage is not under contract (unknown call); ghost code records its outcome (w_builtImage: the image it
+// returned, or the result of stripping the source-retention options from it when that was asked for).
+//@ func run(ctx, container, flags) (retErr)
+//@   property C20
+//@   modifies heap, ghost.fail, ghost.wfail, ghost.w_getImageN, ghost.w_getImageErr, ghost.w_builtImage, ghost.w_putN, ghost.w_putImage
+//@   requires !ghost.fail
+//@   ghost after "image, err := controller.GetImage(" w_getImageN := ghost.w_getImageN + 1
+//@   ghost after "image, err := controller.GetImage(" w_getImageErr := err
+//@   ghost after "image, err := controller.GetImage(" w_builtImage := image
+//@   ghost after "image, err = bufimageutil.StripSourceRetentionOptions(image)" w_builtImage := image
+//@   ensures success-means-built-and-written: retErr == nil ==> ghost.w_getImageN == old(ghost.w_getImageN) + 1 && ghost.w_getImageErr == nil && ghost.w_putN == old(ghost.w_putN) + 1 && !ghost.fail
+//@   ensures writes-the-built-image: retErr == nil ==> ghost.w_putImage == ghost.w_builtImage
+//@   ensures build-verdict-returned-unchanged: ghost.w_getImageN != old(ghost.w_getImageN) && ghost.w_getImageErr != nil ==> retErr == ghost.w_getImageErr && ghost.w_putN == old(ghost.w_putN)
+//@   ensures write-error-returned: ghost.fail ==> retErr != nil
+//@   ensures at-most-one-write: ghost.w_putN == old(ghost.w_putN) || ghost.w_putN == old(ghost.w_putN) + 1
+//@   canary ensures retErr != nil
+//@   canary ensures retErr == nil
